@@ -126,6 +126,7 @@ func engineLA(w *World, tier string) *EngineResult {
 	}
 	r.Stats["retained_addresses_in_loops"] = n
 	r.floor("retained_addresses_in_loops", 3)
+	laMaps(w, r)
 	r.finish()
 	return r
 }
@@ -212,4 +213,107 @@ func (k *keeper) keeps(f *ssa.Function, i int, depth int) bool {
 		k.why[f][i] = k.lastWhy
 	}
 	return res
+}
+
+// laMaps (rule LA-map): inside a loop, a map that is written must not be the same map the
+// iteration's callees read as a look-up table, unless it was made inside the loop: a map
+// assigned from a longer-lived one (`m := shared`) is that very map, so what one iteration
+// writes is visible to the look-ups of all later ones.
+func laMaps(w *World, r *EngineResult) {
+	readsParam := map[*ssa.Function]map[int]bool{}
+	var reads func(f *ssa.Function, i int, depth int) bool
+	reads = func(f *ssa.Function, i int, depth int) bool {
+		if m := readsParam[f]; m != nil {
+			if v, ok := m[i]; ok {
+				return v
+			}
+		} else {
+			readsParam[f] = map[int]bool{}
+		}
+		readsParam[f][i] = false
+		if i >= len(f.Params) || f.Params[i].Referrers() == nil {
+			return false
+		}
+		res := false
+		for _, ref := range *f.Params[i].Referrers() {
+			switch x := ref.(type) {
+			case *ssa.Lookup:
+				if x.X == ssa.Value(f.Params[i]) {
+					res = true
+				}
+			case *ssa.Range:
+				res = true
+			case *ssa.Call:
+				if cal := x.Call.StaticCallee(); cal != nil && len(cal.Blocks) > 0 && depth < 3 {
+					for ai, a := range x.Call.Args {
+						if a == ssa.Value(f.Params[i]) && reads(cal, ai, depth+1) {
+							res = true
+						}
+					}
+				}
+			}
+		}
+		readsParam[f][i] = res
+		return res
+	}
+	n := 0
+	for _, fn := range w.Funcs {
+		ord := 0
+		for _, l := range findLoops(fn) {
+			// maps updated inside the loop
+			updated := map[ssa.Value]*ssa.MapUpdate{}
+			for b := range l.body {
+				for _, ins := range b.Instrs {
+					if mu, ok := ins.(*ssa.MapUpdate); ok {
+						if _, isMap := mu.Map.Type().Underlying().(*types.Map); isMap {
+							updated[mu.Map] = mu
+						}
+					}
+				}
+			}
+			for m, mu := range updated {
+				if _, isGlobal := m.(*ssa.Global); isGlobal {
+					continue
+				}
+				if rootGlobal(m) != nil {
+					continue // process-wide tables are what the loops fill
+				}
+				// handed to a callee that reads it, inside the same loop
+				var reader *ssa.Call
+				for b := range l.body {
+					for _, ins := range b.Instrs {
+						c, ok := ins.(*ssa.Call)
+						if !ok {
+							continue
+						}
+						cal := c.Call.StaticCallee()
+						if cal == nil || len(cal.Blocks) == 0 || cal.Pkg == nil || !inModule(cal.Pkg.Pkg.Path()) {
+							continue
+						}
+						for ai, a := range c.Call.Args {
+							if a == m && reads(cal, ai, 0) {
+								reader = c
+							}
+						}
+					}
+				}
+				if reader == nil {
+					continue
+				}
+				n++
+				ord++
+				construct := fmt.Sprintf("look-up table written in loop#%d", ord)
+				pos := w.pos(instrPos(mu))
+				def, ok := m.(ssa.Instruction)
+				if ok && l.body[def.Block()] {
+					if _, isPhi := m.(*ssa.Phi); !isPhi {
+						r.holds("LA-map", fnKey(fn), construct, "the table is made inside the loop: one table per iteration", pos)
+						continue
+					}
+				}
+				r.violated("LA-map", fnKey(fn), construct, "the table handed to "+fnKey(reader.Call.StaticCallee())+" is written inside the loop but made outside it (a map assigned from another variable is the same map): what one iteration enters is seen by the look-ups of every later iteration", pos)
+			}
+		}
+	}
+	r.Stats["lookup_tables_written_in_loops"] = n
 }
